@@ -54,7 +54,10 @@ META = {
               "bundled sv struct, every field also as first boot of a "
               "history) whose VALUES are symbolic over the field's full "
               "width (8/16/32 bits), passed via **kwargs, via sv_overrides= "
-              "or split over both; both clock readings of every boot "
+              "or split over both; in the refused-options unit also values "
+              "one bit WIDER than the field (9/17/33-bit symbolic values for "
+              "hw_ver, cpu_clk, utmp0) and an unknown field name, followed "
+              "by a clean boot; both clock readings of every boot "
               "symbolic 32-bit integers; boot images: temporary files of "
               "512, 1024, 1028, 2048, 3068 bytes and of the largest legal "
               "size 32764 bytes with CONCRETE pseudo-random content (a real "
@@ -111,10 +114,19 @@ META = {
         "proved empty at the start and at the end of every path (module "
         "state persists between the paths run by one worker process) and "
         "restored after a report",
-        "observed, not claimed: option values wider than the field raise "
-        "struct.error and an unknown field name raises KeyError, both "
-        "before any datagram is sent; the claim checked there is that the "
-        "caller's dictionary is untouched and the NEXT boot is unaffected",
+        "an option value that does not fit its system variable cannot be "
+        "'applied': a boot that ACCEPTS it is held to the whole property, "
+        "so the field on the wire and the returned struct's default must "
+        "both equal the value asked for as integers (a silently truncated "
+        "value is a violation: boot-option-truncated / "
+        "boot-returned-struct-differs-from-sent); a boot that refuses it "
+        "must leave the caller's dictionary and the NEXT boot unaffected",
+        "observed, not claimed: WHICH exception refuses an over-wide value "
+        "(struct.error today), an unknown field name (KeyError today) or an "
+        "oversize image (AssertionError today), and that unknown names are "
+        "refused at all; required as vacuity witness only: some over-wide "
+        "value is refused and some is accepted (the in-range half of a "
+        "field-width+1-bit symbolic value)",
     ],
     "outside_claim": [
         "image content other than the pseudo-random files and the bundled "
@@ -501,6 +513,7 @@ def _do_boot(ctx, env, image, optset, mode, tag, port, via_mc=False):
     rec.image = image
     rec.port = port
     rec.host = "board-%s" % tag
+    rec.optset = optset
     rec.options = _make_options(ctx, bootmod, layout, optset, tag)
     rec.caller_dict, kwargs = _split_options(rec.options, mode)
     rec.caller_snapshot = (None if rec.caller_dict is None
@@ -725,8 +738,38 @@ def _check_structs(ctx, env, rec, vals, conf, L):
     except Exception as e:
         ctx.prove(False, "boot-returned-struct-pack" + L, repr(e))
         return
-    ctx.prove(_eq_items(_items(packed)[:CONF_LENGTH], conf),
+    packed = _items(packed)
+    ctx.prove(_eq_items(packed[:CONF_LENGTH], conf),
               "boot-returned-struct-pack" + L)
+    # Field by field, as VALUES: what is on the wire (bytes below 128; beyond
+    # that, what the returned struct packs to) is exactly the default the
+    # returned struct reports, and exactly the value this call asked for --
+    # not that value truncated to the field's width.
+    full = list(conf) + packed[CONF_LENGTH:]
+    got = getattr(structs[b"sv"], "fields", None)
+    if not isinstance(got, dict):
+        return
+    asked = dict((n, v) for n, v in rec.options
+                 if n not in CLOCK_FIELDS and n != "root_chip")
+    same_as_struct, same_as_asked, detail = [], [], []
+    for name, e in _last_entries(ref["sv"]["entries"]).items():
+        n, off = PERL_SIZE.get(e[1]), e[3]
+        f = got.get(name.encode())
+        if e[2] is not None or n is None or f is None or \
+                off + n > len(full):
+            continue
+        wire = full[off:off + n]
+
+        def holds(v):
+            # the n little-endian bytes `wire` represent the integer v
+            return sand(_eq_items(wire, _le(v, n)), (v >> (8 * n)) == 0)
+        same_as_struct.append(holds(f.default))
+        if name in asked:
+            same_as_asked.append(holds(asked[name]))
+            detail.append((name, wire, asked[name], f.default))
+    ctx.prove(sand(*same_as_struct),
+              "boot-returned-struct-differs-from-sent" + L, detail)
+    ctx.prove(sand(*same_as_asked), "boot-option-truncated" + L, detail)
 
 
 # ----------------------------------------------------------------------
@@ -860,13 +903,20 @@ def _check_rejected(ctx, env, rec, expect):
             ctx.prove(False, "boot-oversize-image-accepted",
                       (len(rec.image_bytes), len(log.events)))
             return
+        if expect == "observe-only":
+            return      # outside the claim: nothing is demanded
+        # an accepted call is held to the whole property: in particular an
+        # over-wide value that was not refused must be on the wire, and in
+        # the returned structs, as the value that was asked for
         _check_boot(ctx, env, rec, first=False)
         return
-    ctx.witness("rejected-" + name)
+    # which exception is raised is observed, not claimed
+    ctx.witness("rejected")
+    if any(kind == "wide" for kind, _ in rec.optset):
+        ctx.witness("rejected-wide-value")
     if expect == "before-sending":
         # size limit: part of the property ("images below the size limit")
-        ctx.prove(len(log.events) == 0 and isinstance(rec.error,
-                                                      AssertionError),
+        ctx.prove(len(log.events) == 0,
                   "boot-oversize-image-not-refused-cleanly",
                   (name, len(log.events)))
     _check_caller_dict(ctx, rec)
@@ -967,12 +1017,12 @@ def units(tier, seed):
     add("size limit: 32 KiB image refused before anything is sent",
         [menu([SIZE_LIMIT], [NONE, presets[0]], expect_error="before-sending"),
          menu([1024], [NONE])],
-        wit=("rejected-AssertionError", "booted"))
+        wit=("rejected", "booted"))
     add("observed: image length not a multiple of 4, then a clean boot",
         [menu([1026, 1023, 2049], [NONE, (("sym", "led0"),)],
-              expect_error="observe"),
+              expect_error="observe-only"),
          menu([1024], [NONE])],
-        wit=("rejected-AssertionError", "booted"))
+        wit=("booted",))
 
     # ---- histories of two boots -------------------------------------------
     first_sets = presets + singles + pairs[:4]
@@ -997,7 +1047,7 @@ def units(tier, seed):
                         ("wide", "utmp0"))],
               MODES3, expect_error="observe"),
          menu([1028], [NONE, presets[3]])],
-        wit=("booted", "rejected-KeyError", "rejected-error", "accepted"),
+        wit=("booted", "rejected-wide-value", "accepted"),
         split=2)
     add("two boots through MachineController.boot",
         [menu([1028], [NONE, presets[2], (("sym", "hw_ver"), ("sym", "led0")),
